@@ -662,3 +662,81 @@ def branching(spec, cfg, tier, seed):
         _res(spec, cfg, "first_true_branch_in_declaration_order_else_default_else_raise", bad is None, d, witness=bad, t0=t0),
         _res(spec, cfg, "exactly_one_model_call", bad_calls is None, d, witness=bad_calls, t0=t0),
     ]
+
+
+# ------------------------------------------------------------------------------------------------ step-list mutators, unbounded list length
+def _list_targets():
+    from kaira.models.base import ConfigurableModel
+    from kaira.models.generic.parallel import ParallelModel
+
+    return {
+        "ConfigurableModel.add_step": ("add", ConfigurableModel.add_step, "steps", False, FM + "base.py:ConfigurableModel.add_step"),
+        "ConfigurableModel.remove_step": ("remove", ConfigurableModel.remove_step, "steps", False, FM + "base.py:ConfigurableModel.remove_step"),
+        "ParallelModel.add_step": ("add", ParallelModel.add_step, "step_configs", True, FM + "generic/parallel.py:ParallelModel.add_step"),
+        "ParallelModel.remove_step": ("remove", ParallelModel.remove_step, "step_configs", True, FM + "generic/parallel.py:ParallelModel.remove_step"),
+    }
+
+
+def _native_list_check(target):
+    """replay: the real method against a Python list model on lists of length 0..4"""
+    from kaira.models.generic.parallel import ParallelModel
+    from kaira.models.generic.sequential import SequentialModel
+
+    cls = SequentialModel if target.startswith("Configurable") else ParallelModel
+    attr = "steps" if target.startswith("Configurable") else "step_configs"
+    for n in range(5):
+        for arg in ([None] if target.endswith("add_step") else list(range(-2, n + 2))):
+            m = cls()
+            fs = [(lambda x, i=i: x) for i in range(n)]
+            for f in fs:
+                m.add_step(f)
+            before = list(getattr(m, attr))
+            if target.endswith("add_step"):
+                g = lambda x: x
+                m.add_step(g)
+                after = list(getattr(m, attr))
+                if len(after) != n + 1 or after[:n] != before or (after[n] is not g and after[n][1] is not g):
+                    return {"length": n, "observed_length": len(after)}
+                try:
+                    m.add_step(3)
+                    return {"length": n, "non_callable_accepted": True}
+                except TypeError:
+                    pass
+            else:
+                try:
+                    m.remove_step(arg)
+                    raised = False
+                except IndexError:
+                    raised = True
+                after = list(getattr(m, attr))
+                want = before if not (0 <= arg < n) else before[:arg] + before[arg + 1 :]
+                if raised != (not (0 <= arg < n)) or after != want:
+                    return {"length": n, "index": arg, "raised": raised, "observed_length": len(after)}
+    return None
+
+
+@obligation(
+    "C17.step_list_unbounded",
+    function=FM + "base.py:ConfigurableModel.add_step; " + FM + "base.py:ConfigurableModel.remove_step; " + FM + "generic/parallel.py:ParallelModel.add_step; " + FM + "generic/parallel.py:ParallelModel.remove_step",
+    configs=lambda tier: [Cfg("list", k) for k in ("ConfigurableModel.add_step", "ConfigurableModel.remove_step", "ParallelModel.add_step", "ParallelModel.remove_step")],
+    kind="custom",
+    engine="E1-listvc",
+)
+def step_list_unbounded(spec, cfg, tier, seed):
+    from vk import listvc
+
+    kind, fn, attr, pair, function = _list_targets()[cfg[1]]
+    vcs, secs = (listvc.add_vcs(fn, attr, pair=pair) if kind == "add" else listvc.remove_vcs(fn, attr))
+    out, native = [], None
+    for name, verdict, detail in vcs:
+        r = ObResult(prop="C17", ob=f"{spec.id}/{name}", config=str(cfg), function=function, engine="E1-listvc", backend="z3", kind="proof", verdict=verdict, detail=detail, solver_s=secs, wall_s=secs)
+        if verdict != "discharged":
+            if native is None:
+                native = _native_list_check(cfg[1]) or False
+            if native:
+                r.verdict, r.witness, r.replay_confirmed = "refuted", native, True
+                r.detail = "found by native run against a list model after: " + detail
+            elif verdict == "refuted":
+                r.replay_confirmed = False
+        out.append(r)
+    return out
